@@ -19,6 +19,12 @@ import os
 PREFIX = "/simfs/"
 
 
+class InjectedOSError(OSError):
+    """An I/O error the simulator injected on purpose (never a bug of the machinery)."""
+
+    injected = True
+
+
 class FaultPlan:
     """Scheduler-owned decisions for one file-system run.
 
@@ -182,7 +188,7 @@ class SimRaw(io.RawIOBase):
         if plan.fail_write_at is not None and d.raw_writes == plan.fail_write_at:
             d.fired["write_error"] += 1
             d.log.append(("write-error", self.name, len(b)))
-            raise OSError(plan.errno_, os.strerror(plan.errno_), self.name)
+            raise InjectedOSError(plan.errno_, os.strerror(plan.errno_), self.name)
         mv = memoryview(b).cast("B")
         n = len(mv)
         lim = plan.write_sizes[(d.raw_writes - 1) % len(plan.write_sizes)]
@@ -213,7 +219,7 @@ class SimRaw(io.RawIOBase):
         d.log.append(("close", self.name))
         if self._writable and d.plan.fail_close:
             d.fired["close_error"] += 1
-            raise OSError(errno.EIO, os.strerror(errno.EIO), self.name)
+            raise InjectedOSError(errno.EIO, os.strerror(errno.EIO), self.name)
 
 
 class SimStream:
